@@ -28,6 +28,8 @@ type sgen struct {
 	calls int // every call site has its own global: no two arms ever look the same
 	vars  int
 	lets  int
+	nlab  int
+	open  []int // labels of the enclosing labelled blocks
 }
 
 func (g *sgen) call() string {
@@ -84,8 +86,8 @@ func (g *sgen) loop() string {
 }
 
 func (g *sgen) stmt(d int) string {
-	k := g.r.Intn(20)
-	if d <= 0 && (k == 4 || k == 5 || k == 6 || k == 7 || k == 8 || k == 13) {
+	k := g.r.Intn(23)
+	if d <= 0 && (k == 4 || k == 5 || k == 6 || k == 7 || k == 8 || k == 13 || k == 20) {
 		k = 0
 	}
 	switch k {
@@ -120,6 +122,23 @@ func (g *sgen) stmt(d int) string {
 		return g.loop()
 	case 18:
 		return ";"
+	case 20:
+		// a labelled block; "break L" inside completes it
+		g.nlab++
+		l := g.nlab
+		g.open = append(g.open, l)
+		body := g.stmts(d-1, g.r.Range(1, 4))
+		g.open = g.open[:len(g.open)-1]
+		return fmt.Sprintf("L%d: { %s }", l, body)
+	case 21, 22:
+		if len(g.open) > 0 {
+			l := g.open[g.r.Intn(len(g.open))]
+			if g.r.Chance(60) {
+				return fmt.Sprintf("if (%s) break L%d;", g.test(), l)
+			}
+			return fmt.Sprintf("break L%d;", l)
+		}
+		return g.call() + ";"
 	default:
 		return g.call() + ";"
 	}
@@ -165,6 +184,8 @@ func nameID(name string) uint32 {
 				return uint32(100 + n)
 			case 'g':
 				return uint32(1000 + n)
+			case 'L':
+				return uint32(n)
 			}
 		}
 	}
@@ -243,6 +264,18 @@ func (c *sconv) stmt(x js_ast.Stmt) string {
 		return "(SBlock " + c.stmts(s.Stmts) + ")"
 	case *js_ast.SLocal:
 		return c.local(s)
+	case *js_ast.SLabel:
+		return fmt.Sprintf("(SLabel %d %s)", c.refID(s.Name.Ref), c.stmt(s.Stmt))
+	case *js_ast.SBreak:
+		if s.Label == nil {
+			return "(SBreak None)"
+		}
+		return fmt.Sprintf("(SBreak (Some %d))", c.refID(s.Label.Ref))
+	case *js_ast.SContinue:
+		if s.Label == nil {
+			return "(SContinue None)"
+		}
+		return fmt.Sprintf("(SContinue (Some %d))", c.refID(s.Label.Ref))
 	case *js_ast.SWhile:
 		return fmt.Sprintf("(SLoop %d None)", c.loopID(s.Test, js_ast.Expr{}, s.Body, "for"))
 	case *js_ast.SDoWhile:
